@@ -221,6 +221,10 @@ func (s *Store) txnNode(tx WriteTxn, idx uint64, op *structs.TxnNodeOp) (structs
 		ok, err = s.ensureNodeCASTxn(tx, idx, &op.Node)
 		if !ok && err == nil {
 			err = fmt.Errorf("failed to set node %q, index is stale", op.Node.Node)
+		}
+		if err != nil {
+			// Do not let the lookup below replace the error of a write that
+			// matched the index but was refused for another reason.
 			break
 		}
 		entry, err = getNode()
@@ -345,6 +349,10 @@ func (s *Store) txnCheck(tx WriteTxn, idx uint64, op *structs.TxnCheckOp) (struc
 		ok, err = s.ensureCheckCASTxn(tx, idx, entry)
 		if !ok && err == nil {
 			err = fmt.Errorf("failed to set check %q on node %q, index is stale", entry.CheckID, entry.Node)
+		}
+		if err != nil {
+			// Do not let the lookup below replace the error of a write that
+			// matched the index but was refused for another reason.
 			break
 		}
 		_, entry, err = getNodeCheckTxn(tx, op.Check.Node, op.Check.CheckID, &op.Check.EnterpriseMeta, op.Check.PeerName)
